@@ -420,6 +420,10 @@ class DCWithOwnInit(DCFamilyBase):
     pass
 
 
+class Registry(dict):
+  """A dict subclass without an __init__ of its own (inspect.signature() of it fails)."""
+
+
 def make_default_variant(d):
   """Function objects created by ONE nested def (one code object) whose defaults differ."""
 
